@@ -77,6 +77,8 @@ def tokenise(s):
 
 
 class FormatProblem(Exception):
+    verdict_violation = True      # raised while judging a produced string: it IS the finding, not an analysis failure
+
     pass
 
 
